@@ -4,12 +4,12 @@ import json, os, sys
 ROOT = os.path.dirname(os.path.abspath(__file__))
 sys.path.insert(0, ROOT)
 from campaigns import CAMPAIGNS, METAS as META
-from manifest_meta import NOT_APPLICABLE, HOOK_COMMITS, NOTES
+from manifest_meta import NOT_APPLICABLE, HOOK_COMMITS, NOTES, READY
 
 base = json.load(open("/root/.vp/BASELINE.json")) if os.path.exists("/root/.vp/BASELINE.json") else {"cmd": ""}
 checks = []
 for pid in sorted(CAMPAIGNS):
-    if pid not in META:
+    if pid not in META or pid not in READY:
         continue
     m = META[pid]
     checks.append({
@@ -34,14 +34,14 @@ man = {
         "add_only": True,
     },
     "engines": [
-        {"name": "lib-rapid", "path": "props/", "serves_properties": sorted(p for p in META if META[p]["engine"] == "lib-rapid"),
+        {"name": "lib-rapid", "path": "props/", "serves_properties": sorted(p for p in META if p in READY and META[p]["engine"] == "lib-rapid"),
          "kind_free_text": "in-process rapid properties (generated inputs / state machines) on exported library entry points with explicit oracles"},
-        {"name": "bb-server", "path": "internal/bb", "serves_properties": sorted(p for p in META if META[p]["engine"] == "bb-server"),
+        {"name": "bb-server", "path": "internal/bb", "serves_properties": sorted(p for p in META if p in READY and META[p]["engine"] == "bb-server"),
          "kind_free_text": "rapid state machines driving the real ts-server binary (built with -tags verif) over HTTP, with a last-write-wins model / reference evaluator as oracle and generated crash points through the fileops hook"},
     ],
     "checks": checks,
     "notes": NOTES,
-    "not_applicable": [{"property_id": p, "reason": r} for p, r in sorted(NOT_APPLICABLE.items()) if p not in META],
+    "not_applicable": [{"property_id": p, "reason": r} for p, r in sorted(NOT_APPLICABLE.items()) if p not in READY],
 }
 json.dump(man, open(os.path.join(ROOT, "MANIFEST.json"), "w"), indent=1)
 print("MANIFEST.json: %d checks, %d not_applicable" % (len(checks), len(man["not_applicable"])))
